@@ -71,7 +71,7 @@ def run_shard(desc) -> Acc:
     async def main(loop):
         ap = await appharness.started_app(loop, V, acc, "C19")
         app, ncp = ap.app, ap.ncp
-        ez = app._ezsp if hasattr(app, "_ezsp") else None
+        ez = appharness.ezsp_of(app)
         plan = {"first": None, "second": None}
         first_names = ("nop",) if V == 4 else ("readCounters", "readAndClearCounters")
 
